@@ -1231,6 +1231,86 @@ var ruleKeyM6 = &Rule{
 				}
 			}
 		}
+		// sibling agreement: a removal is skipped only where the insertion is skipped too
+		ins := c.SSAFunc(commonPkg, "FileIndexInfo", "InsertOneFile")
+		if ins == nil {
+			obs = append(obs, Ob{Key: "KEY/M6:sibling", Verdict: UNDECIDED, Note: "slot unresolved: FileIndexInfo.InsertOneFile"})
+		} else {
+			insConds := map[string]bool{}
+			for _, b := range ins.Blocks {
+				if iff, ok := b.Instrs[len(b.Instrs)-1].(*ssa.If); ok {
+					if t, opaque := termOf(iff.Cond, 0); !opaque {
+						insConds[t] = true
+					}
+				}
+			}
+			nSib := 0
+			for _, fr := range frames {
+				for _, b := range fr.fn.Blocks {
+					for _, in2 := range b.Instrs {
+						call, ok := in2.(*ssa.Call)
+						if !ok {
+							continue
+						}
+						bi, ok := call.Call.Value.(*ssa.Builtin)
+						if !ok || bi.Name() != "delete" || actual(fr, call.Call.Args[1]) != ssa.Value(file) {
+							continue
+						}
+						// the field the bucket comes from
+						rootOf := func(v ssa.Value) string {
+							for d := 0; d < 6; d++ {
+								switch x := v.(type) {
+								case *ssa.Extract:
+									v = x.Tuple
+									continue
+								case *ssa.Lookup:
+									v = actual(fr, x.X)
+									continue
+								case *ssa.UnOp:
+									if fa, ok := x.X.(*ssa.FieldAddr); ok && x.Op == token.MUL {
+										return fieldName(fa.X.Type(), fa.Field)
+									}
+								}
+								break
+							}
+							return ""
+						}
+						field := rootOf(call.Call.Args[0])
+						if field == "" {
+							continue
+						}
+						nSib++
+						key := "KEY/M6:RemoveOneFile:always-removes:" + field
+						var conds []condEdge
+						conds = append(conds, dominatingEdges(b)...)
+						if fr.site != nil {
+							conds = append(conds, dominatingEdges(fr.site.Block())...)
+						}
+						bad := ""
+						for _, e0 := range conds {
+							e := stripNot(e0)
+							// the bucket of this very map exists
+							if ex, ok := e.cond.(*ssa.Extract); ok && ex.Index == 1 {
+								if lk, ok := ex.Tuple.(*ssa.Lookup); ok && rootOf(lk) == field {
+									continue
+								}
+							}
+							if t, opaque := termOf(e.cond, 0); !opaque && insConds[t] {
+								continue // InsertOneFile branches on the same condition
+							}
+							bad = c.Pos(e.cond.Pos())
+						}
+						if bad != "" {
+							obs = append(obs, Ob{Key: key, Site: bad, Verdict: VIOLATION,
+								Note: "the removal from " + field + " depends on a condition (" + bad + ") that InsertOneFile does not test before inserting there: on the other outcome the deleted file stays in this index"})
+						} else {
+							obs = append(obs, Ob{Key: key, Site: c.Pos(call.Pos()), Verdict: OK, Note: "skipped only where the insertion is skipped"})
+						}
+					}
+				}
+			}
+			obs = append(obs, floor("KEY/M6-sibling", "removals compared with their insertion", nSib, 2))
+		}
 		obs = append(obs, floor("KEY/M6", "deletes in RemoveOneFile", nDel, 2))
 		return obs
 	},
@@ -1634,4 +1714,58 @@ func isRangeLatch(b *ssa.BasicBlock, l *loopInfo) bool {
 		b = b.Succs[0]
 	}
 	return false
+}
+
+// ---------------------------------------------------------------------------------------------
+// KEY/M7: a file with an unresolved require is re-resolved on every create / delete
+
+var ruleKeyM7 = &Rule{
+	Name:    "KEY/M7-unresolved-always-rescanned",
+	NeedSSA: true,
+	Text: "FileResult.ReanalyseReferInfo (called for every analysed file when a file is created or deleted) reaches the rebuild of the file's reference diagnostics " +
+		"(the store into CheckErrVec that drops the old `not find file` entries, followed by the re-resolution of every reference) on every path, except through the " +
+		"branch taken when isHasErrorNoFile() is false: a file that carries an unresolved require must be looked at again whatever was created — the textual match of " +
+		"the changed path against the require string (dotted names, init.lua packages) is only an optimisation for files without one",
+	Run: func(c *Ctx) []Ob {
+		f := c.SSAFunc(resultsPkg, "FileResult", "ReanalyseReferInfo")
+		has := c.SSAFunc(resultsPkg, "FileResult", "isHasErrorNoFile")
+		if f == nil || has == nil {
+			return []Ob{{Key: "KEY/M7:slots", Verdict: UNDECIDED, Note: "slot unresolved: FileResult.ReanalyseReferInfo / isHasErrorNoFile"}}
+		}
+		first := f.Blocks[0].Instrs[0]
+		isRebuild := func(i ssa.Instruction) bool {
+			st, ok := i.(*ssa.Store)
+			if !ok {
+				return false
+			}
+			fa, ok := st.Addr.(*ssa.FieldAddr)
+			return ok && fieldName(fa.X.Type(), fa.Field) == "CheckErrVec"
+		}
+		n := 0
+		for _, b := range f.Blocks {
+			for _, ins := range b.Instrs {
+				if isRebuild(ins) {
+					n++
+				}
+			}
+		}
+		if n == 0 {
+			return []Ob{{Key: "KEY/M7:ReanalyseReferInfo", Site: c.Pos(f.Pos()), Verdict: UNDECIDED, Note: "no store into CheckErrVec found: the rebuild of the reference diagnostics is not recognisable"}}
+		}
+		noUnresolved := func(from, to *ssa.BasicBlock) bool {
+			iff, ok := from.Instrs[len(from.Instrs)-1].(*ssa.If)
+			if !ok {
+				return false
+			}
+			e := stripNot(condEdge{iff.Cond, from.Succs[0] == to})
+			call, ok := e.cond.(*ssa.Call)
+			return ok && call.Call.StaticCallee() == has && !e.truth
+		}
+		bad := mustFollowE(f, func(i ssa.Instruction) bool { return i == first }, isRebuild, noUnresolved)
+		if len(bad) > 0 {
+			return []Ob{{Key: "KEY/M7:ReanalyseReferInfo", Site: c.Pos(f.Pos()), Verdict: VIOLATION,
+				Note: "some path returns without rebuilding the reference diagnostics although isHasErrorNoFile() was not found false on it: a file whose require could not be resolved keeps its stale `not find file` diagnostic after the module is created"}}
+		}
+		return []Ob{{Key: "KEY/M7:ReanalyseReferInfo", Site: c.Pos(f.Pos()), Verdict: OK, Note: "the rebuild is skipped only when the file has no unresolved reference"}}
+	},
 }
